@@ -302,6 +302,20 @@ def segClosest2 (E : Env α) (s0 s1 c : V2 α) : V2 α :=
 
 def segDist2 (E : Env α) (s0 s1 c : V2 α) : α := c.dist E (segClosest2 E s0 s1 c)
 
+/-- `Segment.Closest` without `sqrt` (the form executed at `Rat` in exact mode; equal to `segClosest3`
+for an exact `sqrt`, `M3d.Sdf.segClosest3_eq_Q`): compare `B = v1·(c - s0)` with `0` and `A = v1·v1`. -/
+def segClosestQ3 (s0 s1 c : V3 α) : V3 α :=
+  let v1 := s1.sub s0
+  let a := v1.dot v1
+  let b := v1.dot (c.sub s0)
+  if a < b then s1 else if b < 0 then s0 else (v1.scale (b / a)).add s0
+
+def segClosestQ2 (s0 s1 c : V2 α) : V2 α :=
+  let v1 := s1.sub s0
+  let a := v1.dot v1
+  let b := v1.dot (c.sub s0)
+  if a < b then s1 else if b < 0 then s0 else (v1.scale (b / a)).add s0
+
 /-! ## `Capsule` -/
 
 /-- the rounded-side branch of `Capsule.genericSDF` / `Cylinder.genericSDF`: the normal
@@ -409,10 +423,11 @@ def coneRadial (E : Env α) (tip base p : V3 α) : V3 α :=
   safeNormal3 E (p.sub base) (centerLine.orthoBasis E).1 centerLine
 
 /-- The normal `Cone.genericSDF` reports for the slanted side, as repaired by the `fix:` commit:
-`axis.Scale(centerLine.Norm()).Add(centerLine.Normalize().Scale(c.Radius)).Normalize()`. -/
+`height := centerLine.Norm(); axis.Scale(height).Add(centerLine.Scale(c.Radius / height)).Normalize()`. -/
 def coneSideNormal (E : Env α) (tip base : V3 α) (r : α) (axis : V3 α) : V3 α :=
   let centerLine := tip.sub base
-  ((axis.scale (centerLine.norm E)).add ((centerLine.normalize E).scale r)).normalize E
+  let height := centerLine.norm E
+  ((axis.scale height).add (centerLine.scale (r / height))).normalize E
 
 /-- The slanted-side normal before the repair (defect F6, radius and height swapped):
 `axis.Scale(c.Radius).Add(c.Tip.Sub(c.Base)).Normalize()`. Kept for the search theorem. -/
@@ -530,6 +545,29 @@ def triDist (E : Env α) (t0 t1 t2 c : V3 α) : α :=
     let s12 := newSegment3 t1 t2
     let s20 := newSegment3 t2 t0
     (pickMin (segDist3 E s01.1 s01.2 c, ()) [(segDist3 E s12.1 s12.2 c, ()), (segDist3 E s20.1 s20.2 c, ())]).1
+
+/-- `Triangle.Closest` without `sqrt` (executed at `Rat` in exact mode): the coefficients of the orthogonal
+projection onto the plane from the Gram system of `v1, v2`, then the same region test and the same edge loop,
+comparing squared distances. -/
+def triClosestQ (t0 t1 t2 c : V3 α) : V3 α :=
+  let v1 := t1.sub t0
+  let v2 := t2.sub t0
+  let w := c.sub t0
+  let g11 := v1.dot v1
+  let g12 := v1.dot v2
+  let g22 := v2.dot v2
+  let det := g11 * g22 - g12 * g12
+  let kx := (g22 * v1.dot w - g12 * v2.dot w) / det
+  let ky := (g11 * v2.dot w - g12 * v1.dot w) / det
+  if !decide (kx < 0) && !decide (ky < 0) && decide (kx + ky ≤ 1) then (t0.add (v1.scale kx)).add (v2.scale ky)
+  else
+    let s01 := newSegment3 t0 t1
+    let s12 := newSegment3 t1 t2
+    let s20 := newSegment3 t2 t0
+    let c01 := segClosestQ3 s01.1 s01.2 c
+    let c12 := segClosestQ3 s12.1 s12.2 c
+    let c20 := segClosestQ3 s20.1 s20.2 c
+    (pickMin (c01.sqDist c, c01) [(c12.sqDist c, c12), (c20.sqDist c, c20)]).2
 
 /-! ## `meshSDF` -/
 
